@@ -107,6 +107,25 @@ func expectedCells(op *Op) []string {
 	return out
 }
 
+// trMismatch compares the time range on the wire with the one the caller set.
+func trMismatch(tr *pb.TimeRange, op *Op) string {
+	switch op.TR {
+	case "to":
+		if tr == nil || tr.From != nil && tr.GetFrom() != 0 || tr.To == nil || tr.GetTo() != op.Nonce {
+			return fmt.Sprintf("time range %v, want [unset or 0, %d)", tr, op.Nonce)
+		}
+	case "none":
+		if tr != nil && (tr.From != nil && tr.GetFrom() != 0 || tr.To != nil) {
+			return fmt.Sprintf("time range %v, the caller set none", tr)
+		}
+	default:
+		if tr == nil || tr.GetFrom() != op.Nonce || tr.To != nil {
+			return fmt.Sprintf("time range %v, want [%d, unset)", tr, op.Nonce)
+		}
+	}
+	return ""
+}
+
 // WireCheck compares one executed action with its operation.
 func (w *World) WireCheck(e *hb.Exec, ops map[uint64]*Op) []string {
 	var bad []string
@@ -149,8 +168,8 @@ func (w *World) WireCheck(e *hb.Exec, ops map[uint64]*Op) []string {
 		if colsString(g.GetColumn()) != famsString(op.Fams) {
 			f("columns %s, want %s", colsString(g.GetColumn()), famsString(op.Fams))
 		}
-		if g.TimeRange == nil || g.TimeRange.GetFrom() != op.Nonce || g.TimeRange.To != nil {
-			f("time range %v, want [%d, unset)", g.TimeRange, op.Nonce)
+		if m := trMismatch(g.TimeRange, op); m != "" {
+			f("%s", m)
 		}
 		if g.GetExistenceOnly() != op.Exists {
 			f("existence_only=%v, want %v", g.GetExistenceOnly(), op.Exists)
@@ -269,8 +288,8 @@ func (w *World) WireCheck(e *hb.Exec, ops map[uint64]*Op) []string {
 		if colsString(s.GetColumn()) != famsString(op.Fams) {
 			f("columns %s, want %s", colsString(s.GetColumn()), famsString(op.Fams))
 		}
-		if s.TimeRange == nil || s.TimeRange.GetFrom() != op.Nonce || s.TimeRange.To != nil {
-			f("time range %v, want [%d, unset)", s.TimeRange, op.Nonce)
+		if m := trMismatch(s.TimeRange, op); m != "" {
+			f("%s", m)
 		}
 		if s.GetMaxResultSize() != 2097152 {
 			f("max_result_size %d", s.GetMaxResultSize())
